@@ -154,14 +154,20 @@ func (s *stopImpl) cacheClosestStops() error {
 }
 
 func (s *stopImpl) closestStops() (ModelStops, error) {
+	// The stops of a model are shared by the solutions of all parallel runs,
+	// the cache is read under the lock as well.
+	s.model.mutex.RLock()
+	closest := s.closest
+	s.model.mutex.RUnlock()
+	if closest != nil {
+		return closest, nil
+	}
+	s.model.mutex.Lock()
+	defer s.model.mutex.Unlock()
 	if s.closest == nil {
-		s.model.mutex.Lock()
-		defer s.model.mutex.Unlock()
-		if s.closest == nil {
-			err := s.cacheClosestStops()
-			if err != nil {
-				return nil, err
-			}
+		err := s.cacheClosestStops()
+		if err != nil {
+			return nil, err
 		}
 	}
 	return s.closest, nil
@@ -174,7 +180,7 @@ func (s *stopImpl) ClosestStops() (ModelStops, error) {
 	}
 	closest := make(ModelStops, len(closestStops))
 	copy(closest, closestStops)
-	return s.closest, nil
+	return closest, nil
 }
 
 func (s *stopImpl) HasPlanStopsUnit() bool {
